@@ -503,7 +503,7 @@ def run(env, res, eng, trees, ptr_kinds):
 
     try:
         # ---- directed runs of differing sizes: every spelling each time
-        nd = 26 if quick else 200  # thorough sizes bounded by memory (cstruct objects are never freed)
+        nd = 26 if quick else 400
         for _ in range(nd):
             shape, tree = Directed(rnd).struct()
             res.feat("family-e:directed-shape:" + shape)
@@ -514,7 +514,7 @@ def run(env, res, eng, trees, ptr_kinds):
             if len(eng.lines) > 4000:
                 eng.flush()
         # ---- the definitions of families (a)/(b) under the spellings
-        pool = rnd.sample(trees, min(len(trees), 70 if quick else 400))
+        pool = rnd.sample(trees, min(len(trees), 70 if quick else 800))
         for tree in pool:
             todo = rnd.sample(chars, 2 if quick else len(chars)) + (words if rnd.random() < (0.15 if quick else 0.5) else [])
             for spelling in todo:
@@ -524,7 +524,7 @@ def run(env, res, eng, trees, ptr_kinds):
         # ---- pointer-bearing definitions of family (c)
         ptrs, near = ptr_kinds
         pk, nk = list(ptrs), list(near)
-        for _ in range(16 if quick else 80):
+        for _ in range(16 if quick else 150):
             seq = [ptrs[rnd.choice(pk)]]
             if rnd.random() < 0.7:
                 seq.insert(rnd.choice([0, 1]), near[rnd.choice(nk)] if rnd.random() < 0.7 else ptrs[rnd.choice(pk)])
